@@ -320,10 +320,9 @@ fn byte_contexts(b: u8) -> Vec<Vec<u8>> {
 
 pub fn run(run: &'static Run) {
     let n_all = run.pick(4, 5);
-    let n_git = run.pick(2, 3);
     run.rule(format!(
         "tokens {{a,A,_,.,/,@,{{,*,:,~,-,SP,.lock,0x01,0x7f,e-acute(0xc3a9)}}: every concatenation of 0..={n_all} tokens against the transcribed git 2.39 \
-         check_refname_format; every concatenation of 0..={n_git} tokens also against the git binary, thorough additionally every byte 0x01..0xff in the first 4 of the 7 byte contexts; \
+         check_refname_format; also against the git binary: quick = every string of <= 1 token and every 2-token string over {{a,A,.,/,@,{{,-,.lock}}; thorough = every string of <= 2 tokens, every 3-token string over these 8 tokens and every byte 0x01..0xff alone and as a?a; \
          every byte 0x01..0xff in 7 contexts (alone, a?a, r/?a, r/a?, ?/a, @?, ??) against the transcription; on every string: name, name_partial, FullName/PartialNameRef::try_from, name_partial_or_sanitize. \
          non-trivial = the verdict is not decided by the first byte alone (valid names, or rejection at byte >= 1)"
     ));
@@ -361,14 +360,20 @@ pub fn run(run: &'static Run) {
 
     // git-verified tier (simplest strings first)
     let rp = repo_path.clone();
+    // 8 tokens that take part in multi-byte rules ('..', '@{', '/.', '.lock/', leading '-', one-level upper case)
+    const CORE: [&[u8]; 8] = [b"a", b"A", b".", b"/", b"@", b"{", b"-", b".lock"];
     run.sub_with(
         "git",
-        vkit::Opts::default().chunk(128),
+        vkit::Opts::default().chunk(run.pick(1024, 128)),
         |emit| {
-            enumerate::strings(&TOKENS, 0, n_git, |s| emit(Case { s: B(s.to_vec()), git: 1 }));
-            if !run.quick() {
+            if run.quick() {
+                enumerate::strings(&TOKENS, 0, 1, |s| emit(Case { s: B(s.to_vec()), git: 1 }));
+                enumerate::strings(&CORE, 2, 2, |s| emit(Case { s: B(s.to_vec()), git: 1 }));
+            } else {
+                enumerate::strings(&TOKENS, 0, 2, |s| emit(Case { s: B(s.to_vec()), git: 1 }));
+                enumerate::strings(&CORE, 3, 3, |s| emit(Case { s: B(s.to_vec()), git: 1 }));
                 for b in 1..=255u8 {
-                    for s in byte_contexts(b).into_iter().take(4) {
+                    for s in byte_contexts(b).into_iter().take(2) {
                         emit(Case { s: B(s), git: 1 });
                     }
                 }
